@@ -41,13 +41,36 @@ theorem u64_le64 (n : Nat) (r : Bytes) (h : n < 18446744073709551616) : u64 (le6
 
 /-! `need` / `drop` over encoded fields -/
 
-theorem need_zero (r : Bytes) : need r 0 = .ok () := by simp [need]
-theorem need_succ (x : UInt8) (r : Bytes) (n : Nat) : need (x :: r) (n + 1) = need r n := by simp [need]
-theorem need_16 (m : Nat) (r : Bytes) (n : Nat) : need (le16 m ++ r) (n + 2) = need r n := by
+/-- the test of `need`: fewer than `n` bytes left -/
+def needB (b : Bytes) (n : Nat) : Bool := decide (b.length < n)
+
+/-- the error text of `need` -/
+def needMsg (xls : Bool) (b : Bytes) (n : Nat) : String :=
+  if xls then "Len { expected: " ++ toString n ++ ", found: " ++ toString b.length ++ ", typ: \"formula token\" }"
+  else "Unrecognized { typ: \"formula token\", val: \"" ++ toString b.length ++ "\" }"
+
+/-- `need` through its test: on encoded tokens the test evaluates to `false` by peeling (lemmas below) -/
+theorem need_unfold (f : Bool) (b : Bytes) (n : Nat) :
+    need f b n = if needB b n = true then .err (needMsg f b n) else .ok () := by
+  unfold need needB needMsg
+  by_cases h : b.length < n <;> simp [h]
+
+theorem need_ok (f : Bool) (b : Bytes) (n : Nat) (h : n ≤ b.length) : need f b n = .ok () := by
+  have : ¬ b.length < n := by omega
+  simp [need, this]
+
+theorem need_of_needB (f : Bool) (b : Bytes) (n : Nat) (h : needB b n = false) : need f b n = .ok () := by
+  unfold needB at h
+  have : ¬ b.length < n := by simpa using h
+  simp [need, this]
+
+theorem need_zero (r : Bytes) : needB r 0 = false := by simp [needB]
+theorem need_succ (x : UInt8) (r : Bytes) (n : Nat) : needB (x :: r) (n + 1) = needB r n := by simp [needB]
+theorem need_16 (m : Nat) (r : Bytes) (n : Nat) : needB (le16 m ++ r) (n + 2) = needB r n := by
   simp [le16_append, need_succ]
-theorem need_32 (m : Nat) (r : Bytes) (n : Nat) : need (le32 m ++ r) (n + 4) = need r n := by
+theorem need_32 (m : Nat) (r : Bytes) (n : Nat) : needB (le32 m ++ r) (n + 4) = needB r n := by
   rw [le32_append, show n + 4 = (n + 2) + 2 from rfl, need_16, need_16]
-theorem need_64 (m : Nat) (r : Bytes) (n : Nat) : need (le64 m ++ r) (n + 8) = need r n := by
+theorem need_64 (m : Nat) (r : Bytes) (n : Nat) : needB (le64 m ++ r) (n + 8) = needB r n := by
   rw [le64_append, show n + 8 = (n + 4) + 4 from rfl, need_32, need_32]
 theorem drop_16 (m : Nat) (r : Bytes) (n : Nat) : (le16 m ++ r).drop (n + 2) = r.drop n := by
   simp [le16_append]
@@ -185,10 +208,7 @@ theorem utf16Units_latin (s : List Char) (h : ∀ c ∈ s, c.toNat < 256) :
     have : c.toNat < 0x10000 := by omega
     simp [utf16Units, this, ih (fun d hd => h d (by simp [hd]))]
 
-theorem need_append (p r : Bytes) (n : Nat) : need (p ++ r) (p.length + n) = need r n := by
-  simp [need]
-
-theorem need_self (p r : Bytes) : need (p ++ r) p.length = .ok () := by simp [need]
+theorem need_self (f : Bool) (p r : Bytes) : need f (p ++ r) p.length = .ok () := by simp [need]
 
 theorem units_two (x y : UInt8) (l : Bytes) (n : Nat) : units (x :: y :: l) 2 n = units l 0 n := by
   rw [show (2 : Nat) = 0 + 1 + 1 from rfl, units_succ, units_succ]
@@ -196,9 +216,9 @@ theorem units_two (x y : UInt8) (l : Bytes) (n : Nat) : units (x :: y :: l) 2 n 
 theorem narrow_two (x y : UInt8) (l : Bytes) (n : Nat) : narrow (x :: y :: l) 2 n = narrow l 0 n := by
   rw [show (2 : Nat) = 0 + 1 + 1 from rfl, narrow_succ, narrow_succ]
 
-theorem need2_add (a b : UInt8) (l : Bytes) (k : Nat) : need (a :: b :: l) (2 + k) = need l k := by
-  simp only [need, List.length_cons]
-  split <;> split <;> first | rfl | omega
+theorem need2_add (f : Bool) (a b : UInt8) (l r : Bytes) : need f (a :: b :: (l ++ r)) (2 + l.length) = .ok () := by
+  have : ¬ (a :: b :: (l ++ r)).length < 2 + l.length := by simp; omega
+  simp only [need, this, if_false]
 
 theorem drop2_add (a b : UInt8) (l : Bytes) (k : Nat) : (a :: b :: l).drop (2 + k) = l.drop k := by
   rw [show 2 + k = k + 1 + 1 from by omega]; simp
